@@ -112,7 +112,8 @@ func genFatal(tape *simrt.Tape) *tgerr.Error {
 	if tape.Coin(simrt.Wl, 2, 3) {
 		argAt = tape.Choose(simrt.Wl, n+1)
 	}
-	arg := simrt.Pick(tape, simrt.Wl, 0, 1, 7, 60, 86400, 1<<31-1)
+	// (2, 3, 4, 9: also the leading digits of words in the list)
+	arg := simrt.Pick(tape, simrt.Wl, 0, 1, 2, 3, 4, 9, 7, 60, 86400, 1<<31-1)
 	var parts, typ []string
 	for i := 0; i <= n; i++ {
 		if i == argAt {
